@@ -12,10 +12,10 @@ import (
 
 type Cookie struct {
 	Name, Value, Domain, Path string
-	Secure, HttpOnly           bool
-	Expires                    time.Time // zero = session cookie
-	SetAt                      time.Time
-	Raw                        *http.Cookie
+	Secure, HttpOnly          bool
+	Expires                   time.Time // zero = session cookie
+	SetAt                     time.Time
+	Raw                       *http.Cookie
 }
 
 type Jar struct {
